@@ -103,6 +103,12 @@ FROM foo
     }
 
     fn eval(&self, context: &RuleContext) -> Vec<LintResult> {
+        // A quoted function name (BigQuery: `project.dataset.function`(x)) is case
+        // sensitive like any quoted identifier: it is not ours to re-case.
+        if context.segment.raw().starts_with(['`', '"']) {
+            return Vec::new();
+        }
+
         self.base.eval(context)
     }
 
